@@ -50,6 +50,7 @@ pub fn backend_conn(sh: &Arc<CellShared>, sock: TcpStream, idx: usize, lprog: &I
     let mut resp: Option<(Arc<Xfer>, WireGen, u64)> = None;
     let mut nth = 0usize;
     let mut last_key: Option<u64> = None;
+    let mut waiting: std::collections::VecDeque<Arc<Xfer>> = std::collections::VecDeque::new();
 
     let start_response = |pump: &mut Pump, x: &Arc<Xfer>| -> (Arc<Xfer>, WireGen, u64) {
         sh.with_back(x.key, |b| b.resp_started = true);
@@ -90,7 +91,7 @@ pub fn backend_conn(sh: &Arc<CellShared>, sock: TcpStream, idx: usize, lprog: &I
             }
         }
         if finished {
-            resp = None;
+            resp = waiting.pop_front().map(|x| start_response(&mut pump, &x));
         }
         inbuf.clear();
         let st = match pump.step(Duration::from_millis(20), &mut inbuf) {
@@ -208,8 +209,14 @@ pub fn backend_conn(sh: &Arc<CellShared>, sock: TcpStream, idx: usize, lprog: &I
                                     b.req.trailers = Some(trailers.len());
                                 }
                             });
-                            if resp.is_none() && c.x.mode == Mode::Normal {
-                                resp = Some(start_response(&mut pump, &c.x));
+                            if c.x.mode == Mode::Normal {
+                                if resp.is_none() {
+                                    resp = Some(start_response(&mut pump, &c.x));
+                                } else {
+                                    // a request that arrives while the previous response is still
+                                    // being written is answered after it, like any HTTP/1.1 server
+                                    waiting.push_back(c.x.clone());
+                                }
                             }
                         }
                     }
